@@ -119,6 +119,10 @@ def run_one(seed, idx, tier):
         status, detail, stats = simulate(prog, text, tn, stim, oseed, mode)
         for k, v in stats.items():
             agg[k] = max(agg.get(k, 0), v) if k == "branches" else agg.get(k, 0) + v
+        if status == "sensitivity":
+            # an incomplete sensitivity list is a C06 matter as well (a stale output additionally shows as a mismatch here)
+            res.update(status="skipped", reason="incomplete-sensitivity-list(see C06)", agg=agg)
+            return res
         if status == "legality":
             # illegal VHDL is a C06 matter (the C06 check runs this generator too); not explored here
             res.update(status="skipped", reason="illegal-vhdl:" + str(detail.get("rule")), agg=agg)
